@@ -56,26 +56,26 @@ for line in subprocess.run(['/verif/bin/emucheck','list'],capture_output=True,te
             if r not in seen: seen.append(r)
         ACTUAL[parts[0]]=','.join(sorted(seen))
 EXTRA = {
- "C01": "; no row object reused across the entries of a request; cell scans / column lookups do not rely on an order that does not hold mid-request; timestamps from the injectable clock; whole-millisecond test on every accepting path",
+ "C01": "; no row object reused across the entries of a request; cell scans / column lookups do not rely on an order that does not hold mid-request; timestamps from the injectable clock; whole-millisecond test on every accepting path; the value bytes of an existing cell are never written",
  "C02": "; the content file is replaced by a truncating write; upload ids are the atomic increment's own result; every mutator in its matching critical section; the declared Content-Length never bounds a body read (gzip bodies are longer than declared); bytes handed to Store.Add are never recycled; the recorded MD5 derives from md5.Sum of the stored bytes on every path; a store read that reports not-found is answered 404",
- "C03": "; the range-merge fold step is computed from its accumulator; the trailing row of SampleRowKeys is decided for every row; the scan variant agrees with which range ends are present; no nil bound; no per-range scratch value carried over; a sent chunk buffer is not recycled; the whole-table default is selected on the request, not on the normalised range list; the scan callback passes a row over only because of the row itself",
+ "C03": "; the range-merge fold step is computed from its accumulator; the trailing row of SampleRowKeys is decided for every row; the scan variant agrees with which range ends are present; no nil bound; no per-range scratch value carried over; a sent chunk buffer is not recycled; the whole-table default is selected on the request, not on the normalised range list; the scan callback passes a row over only because of the row itself; a chunk buffer that has been sent is emptied before the scan goes on",
  "C04": "; no in-place mutation of objects handed out by the store (a rejected request leaves sources untouched); conditions evaluated derive from the request on every path (backward flow); no per-source condition carried over from the previous source; every compose source has its own precondition evaluated on every path through the sources loop",
  "C05": "; the error of a nested filter evaluation is propagated; copyRow gives copies their own cell slices; in-place compactions are truncated before use; isEmpty answers on the evidence of a cell; the presence of a column/value range bound is decided by the oneof case, not by the emptiness of its bytes",
- "C06": "; GC never writes back a stale row; copyRow depth; the ReadModifyWriteRow timestamp depends on the newest existing cell",
+ "C06": "; GC never writes back a stale row; copyRow depth; the ReadModifyWriteRow timestamp depends on the newest existing cell; the value bytes of an existing cell are never written",
  "C07": "; the locked object is not read back after its lock was released; no nested object locks; check-then-act on the bucket map under one hold; stored memory-store records are never assigned in place; nothing written under the object lock derives from a read of that object made before the lock; mutators reached through narrower interfaces are still checked",
  "C08": "; the optional DeleteTableMeta is in the value method set of a storage used as a value; registry check-then-act under one hold; a created table starts from a wiped directory and Clear reopens with nuke; walk callbacks examine their error first; the table definition is persisted under the lock that serialises its changes",
- "C09": "; directory pruning stops strictly below the bucket directory; Copy does not mix source and destination names; any return on an unreadable sidecar excludes not-exist first; siblings use the same named parameters; scrubbed fields are recomputed; directory entries never reach the per-object listing logic; filestore.Add creates the object's directory on every writing path",
- "C10": "; the locked object is not read back after its lock was released; every mutator in its matching critical section; stored records immutable",
+ "C09": "; directory pruning stops strictly below the bucket directory; Copy does not mix source and destination names; any return on an unreadable sidecar excludes not-exist first; siblings use the same named parameters; scrubbed fields are recomputed; directory entries never reach the per-object listing logic; filestore.Add creates the object's directory on every writing path; computed metadata fields are baked from final values",
+ "C10": "; the locked object is not read back after its lock was released; every mutator in its matching critical section; stored records immutable; computed metadata fields are baked from final values; Copy goes through the store's own Add",
  "C11": "; recorded names carry the requested prefix; walk callback examines its error first; sibling parameter use; directory entries never reach the per-object listing logic; the prefix is never on the inclusive side of the cursor comparison; a page is bounded by maxResults on every recording path",
  "C12": "; the branch selector is an emptiness test on every path; cells are never edited in place; copyRow depth; no row deletion from inside an iteration; isEmpty answers on the evidence of a cell; a given predicate is evaluated on every successful path",
- "C13": "; timestamps from the injectable clock; column lookups do not rely on qualifier order; appendOrReplaceCell uniqueness conditions; read and write-back of every row RPC under one hold; the written timestamp depends on the newest existing cell",
+ "C13": "; timestamps from the injectable clock; column lookups do not rely on qualifier order; appendOrReplaceCell uniqueness conditions; read and write-back of every row RPC under one hold; the written timestamp depends on the newest existing cell; the value bytes of an existing cell are never written",
  "C14": "; registry check-then-act under one hold; no nil scan bound; rows closed only at shutdown; the ListTables parent prefix includes the /tables/ separator; a missing table is answered NotFound, an existing one AlreadyExists",
  "C15": "; no copy loop over a just-made map; no nested object locks; decode target is not a shallow copy of a store object; stored records immutable; a missing source or object is answered 404",
  "C16": "; the write-back flag of a GC pass is monotone over the columns; GC cut-offs from the injectable clock; every row store stamps the write-activity clock; engine methods have only their own effect and take no locks; a GC pass takes its rules from the live family definitions, not from a second copy",
  "C17": "; dispatch shape; engine contracts (reopen passes nuke, Create wipes, single-effect methods, no engine locks, Close only at shutdown)",
- "C18": "; no value-receiver field assignment in the chunk builder; read and write-back of the row RPCs under one hold; every table.rows access under the lock; no stale GC write-back; store only on success; engines take no locks; rows closed only at shutdown; sent buffers not recycled; the scan callback passes a row over only because of the row itself",
+ "C18": "; no value-receiver field assignment in the chunk builder; read and write-back of the row RPCs under one hold; every table.rows access under the lock; no stale GC write-back; store only on success; engines take no locks; rows closed only at shutdown; sent buffers not recycled; the scan callback passes a row over only because of the row itself; a chunk buffer that has been sent is emptied before the scan goes on",
  "C19": "; Run cannot return on the acquired edge without the deferred unlock; decrement and eviction in one hold",
- "C20": "; Content-Length agrees with every body write; every table is built around a non-nil family map; guarded-map check-then-act, nested object locks, use after ownership transfer, carried-over scratch values, engine locks / Close, in-place record updates; a batch answers every parsed part (dispatch, part creation and response write on every path of an iteration, a recorder per part, lists in lockstep, closing boundary); no mutex is acquired again while it is held, through calls, interface dispatch or callbacks; elements of JSON-decoded pointer lists are nil-checked; no response is streamed to the client while a table or registry mutex is held; a missing table is answered NotFound and a store read that reports not-found 404",
+ "C20": "; Content-Length agrees with every body write; every table is built around a non-nil family map; guarded-map check-then-act, nested object locks, use after ownership transfer, carried-over scratch values, engine locks / Close, in-place record updates; a batch answers every parsed part (dispatch, part creation and response write on every path of an iteration, a recorder per part, lists in lockstep, closing boundary); no mutex is acquired again while it is held, through calls, interface dispatch or callbacks; elements of JSON-decoded pointer lists are nil-checked; no response is streamed to the client while a table or registry mutex is held; a missing table is answered NotFound and a store read that reports not-found 404; integer struct fields filled from parsed request numbers are request-integer sources",
 }
 checks=[]
 for p in props:
